@@ -31,15 +31,30 @@ def install_census(sim, roles=None, extra_roles=()):
     sim.census = {}
     sim.census_dp = {}
     sim.census_mark = 0
+    reported = set()      # victim threads that have told their parent that they are up (the constructor may return from then on)
+
+    def mark_of(t, code, line):
+        # Points count as "after the constructor returned" (mark >= 1) as soon as they *can* be: in the census schedule the child
+        # may well race ahead of its parent's constructor, under another schedule the same point is reached after it - a fault
+        # aimed there holds the child until the parent's request is pending.  The earliest such point is the statement after the
+        # child's start-up report.
+        if sim.census_mark or t.name in reported:
+            return max(sim.census_mark, 1)
+        if code.co_qualname in RUN_LOOPS:
+            import linecache
+            src = linecache.getline(code.co_filename, line)
+            if any(m in src for m in _STARTUP_REPORTED):
+                reported.add(t.name)
+        return sim.census_mark
 
     def hook(t, code, line):
         if t.role in extra_roles or is_victim(sim, t):
-            sim.census.setdefault(t.name, []).append((t.nline, code.co_qualname, line, sim.census_mark))
+            sim.census.setdefault(t.name, []).append((t.nline, code.co_qualname, line, mark_of(t, code, line)))
 
     def dphook(t, kind, code, line):
         if t.role in extra_roles or is_victim(sim, t):
-            sim.census_dp.setdefault(t.name, []).append((t.ndp, code.co_qualname if code is not None else None, line,
-                                                         sim.census_mark, kind))
+            m = max(sim.census_mark, 1) if (sim.census_mark or t.name in reported) else 0
+            sim.census_dp.setdefault(t.name, []).append((t.ndp, code.co_qualname if code is not None else None, line, m, kind))
     sim.line_hook = hook
     sim.dp_hook = dphook
     sim.dp_active = True
@@ -185,6 +200,9 @@ def landed_exc_types(sim, thread_names=None):
 
 
 _AST = {}
+# source fragments of the statement with which each kind of child tells its parent that it is up
+_STARTUP_REPORTED = ('self._startup_sync.set()', 'self._comms.child_end.put((self._pid, self._tid, self._ident))',
+                     'self._comms.child_end.send((self._host, self._pid, self._tid, self._ident))')
 RUN_LOOPS = ('ThreadWorker._run', 'ProcessWorker._run', 'RemoteWorker._run_backend')
 
 
